@@ -611,17 +611,36 @@ pub fn apply(op: &FaultOp, victim: &[u8], aux: Option<&[u8]>) -> Option<Vec<u8>>
             };
             // (block version 1 with the current external layout is what an honest signer and
             // holder produce: not a fault)
-            if *block_version == 1 && *ext_layout >= 2 {
+            if *block_version == 1 && *ext_layout == 2 {
                 return None;
             }
-            let ext_sig = refchain::sign(signer.alg, &signer.secret(), &ext_msg).ok()?;
+            // layouts 3..: nobody signs. The external key is a small-order point of the Ed25519
+            // curve (3: the neutral element, 4: the point of order two) and the "signature" is
+            // R = neutral element, S = 0, which the permissive verification equation
+            // [S]B = R + [k]A accepts for the neutral key whatever the message (and for the
+            // order-two key whenever k is even); strict verification refuses such keys
+            let (ext_sig, ext_pk) = if *ext_layout >= 3 {
+                let mut ident = vec![0u8; 32];
+                ident[0] = 1;
+                let mut key = ident.clone();
+                if *ext_layout >= 4 {
+                    key = vec![0xff; 32];
+                    key[0] = 0xec;
+                    key[31] = 0x7f;
+                }
+                let mut s = ident;
+                s.extend_from_slice(&[0u8; 32]);
+                (s, schema::PublicKey { algorithm: 0, key })
+            } else {
+                (refchain::sign(signer.alg, &signer.secret(), &ext_msg).ok()?, signer.keypair().public().to_proto())
+            };
             let msg = refchain::block_payload(*block_version, &payload, &next.rkey(), Some(&last.signature), Some(&ext_sig)).ok()?;
             let sig = refchain::sign(holder_alg, &secret, &msg).ok()?;
             t.blocks.push(schema::SignedBlock {
                 block: payload,
                 next_key: next.keypair().public().to_proto(),
                 signature: sig,
-                external_signature: Some(schema::ExternalSignature { signature: ext_sig, public_key: signer.keypair().public().to_proto() }),
+                external_signature: Some(schema::ExternalSignature { signature: ext_sig, public_key: ext_pk }),
                 version: if *block_version > 0 { Some(*block_version) } else { None },
             });
             t.proof.content = Some(schema::proof::Content::NextSecret(next.secret()));
@@ -725,7 +744,7 @@ pub fn table(n: usize, m: Option<usize>, victim_len: usize, seed: u64, n_bytes: 
     }
     v.push(FaultOp::SealTwin);
     v.push(FaultOp::AppendWithRandKey { seed: rng.next() >> 8 });
-    for (block_version, ext_layout) in [(0u32, 0u8), (0, 1), (0, 2), (1, 0), (1, 1)] {
+    for (block_version, ext_layout) in [(0u32, 0u8), (0, 1), (0, 2), (1, 0), (1, 1), (1, 3), (1, 4), (0, 3)] {
         v.push(FaultOp::TpForge { block_version, ext_layout });
     }
     for kid in [None, Some(0), Some(1), Some(7)] {
